@@ -79,7 +79,7 @@ def mutate(r, src):
             toks[i] = r.choice(TOKENS)
         elif e < 0.85 and toks:
             toks.insert(i, toks[i])
-        else:
+        elif toks:
             j = r.randrange(len(toks))
             toks[i], toks[j] = toks[j], toks[i]
     return "".join(toks)
